@@ -41,6 +41,18 @@ def make_wl(rng, k):
         opts.update(annotated=True, data_type="nanopore")
         opts.pop("model_strategy", None)
         opts.pop("extra", None)
+    if k is not None and k % 16 == 13:
+        # two experiments with the same reads in ONE process (--threads 1), not killed: what the first experiment's chromosomes
+        # left in the process must not show up in the second experiment's annotations
+        opts.pop("force_fault", None)
+        opts["no_fault"] = True
+        # (the second experiment's reads are polyA-trimmed: it builds fewer unannotated models than the first)
+        spec.update(n_exp=2, exp_mode="split", exp_polya=[1, 0], novel=3, novel_cov=8, polya=1)
+        opts["data_type"] = "pacbio_ccs"
+        opts.pop("model_strategy", None)
+        opts.pop("extra", None)
+        opts["force_cell"] = {"threads": 1, "sched": {"policy": "serial", "seed": 0}}
+        opts["annotated"] = True
     if k is not None and k % 8 == 7:
         # history of the output folder: an earlier run with one chromosome MORE was killed right before it merged its per-chromosome
         # files; the run under test (--force) must report its own chromosomes only
